@@ -2028,7 +2028,11 @@ class ImportManager:
 
   @property
   def sorted_imports(self):
-    return sorted(self.imports, key=lambda s: s.module)
+    # `__gin__` feature imports come first whatever the other module names are:
+    # dynamic registration has to be enabled before any module is imported.
+    return sorted(
+        self.imports,
+        key=lambda s: (not s.module.startswith('__gin__.'), s.module))
 
   def add_import(self, statement: config_parser.ImportStatement):
     """Adds a single import to this `ImportManager` instance.
